@@ -102,8 +102,24 @@ def kdec(o):
     return o
 
 
+def venc(v):
+    """BTreeDict values: the model's value ids are naturals; ids 1 and 2 are stored as the *falsy* values 0 and None"""
+    return 0 if v == 1 else (None if v == 2 else v)
+
+
+def vdec(pv):
+    return 2 if pv is None else (1 if pv == 0 else pv)
+
+
+def vid_of(e) -> int:
+    """value id of a stored element: the (decoded) value of a KV, the tag of a Member (0 = untagged, as `add` makes them)"""
+    if isinstance(e, btree.KV):
+        return vdec(e._value)
+    return getattr(e, "_value", 0)
+
+
 def elt_str(e) -> str:
-    return f"{kdec(e.key())}:{getattr(e, '_value', 0)}"
+    return f"{kdec(e.key())}:{vid_of(e)}"
 
 
 def shape_of(root) -> str:
@@ -254,7 +270,7 @@ def _instrument():
     for nm in ("try_left_steal", "try_right_steal"):
         if hasattr(N, nm):
             wrap_bool(nm)
-    for nm in ("split", "merge", "_get_node"):
+    for nm in ("split", "merge", "_get_node", "optimize_in_order_insertion"):
         if hasattr(N, nm):
             wrap(nm)
 
@@ -279,6 +295,7 @@ class Runner:
         self.emptied_by_failed_exact = {}  # tree -> its root was left empty by a delete_exact that raised ValueError
         self._cow = None
         self.height_before = 0
+        self.in_order_of = []  # the in_order argument each tree was made with
         self.curs = []  # (tree index, cursor, refcursor, open)
         self.objs = {}
         self.fails = []  # (signature, what, op index)
@@ -292,6 +309,11 @@ class Runner:
     def new_tree(self, original=None, io=False, via_copy=False):
         cls = btree.BTreeSet if self.is_set else btree.BTreeDict
         if original is None:
+            if self.case.get("defaults"):
+                tr = cls(in_order=True) if io else cls()  # documented defaults: t = 127, in_order = False
+                if tr.t != 127 or tr.in_order != bool(io):
+                    self.fail("C19/constructor/defaults", f"{cls.__name__}() has t={tr.t} in_order={tr.in_order}", 0)
+                return tr
             return cls(t=self.t, in_order=io)
         if via_copy and not io:
             return copy.copy(original)
@@ -304,7 +326,7 @@ class Runner:
                 e = btree.Member(kenc(k))
                 e._value = v  # tag only; Member has no value of its own (printed as the value id)
             else:
-                e = btree.KV(kenc(k), v)
+                e = btree.KV(kenc(k), venc(v))
             self.objs[(k, v)] = e
         return e
 
@@ -428,17 +450,25 @@ class Runner:
                     else:
                         e = self.make_elt(k, v)
                     exp_old = ref.get(k)
+                    opt_before = BRANCH.get("branch.optimize_in_order_insertion", 0)
                     if sel == 0 and not frozen and not (self.is_set and v != 0):
                         old = tr.get_element(kenc(k))
                         if self.is_set:
                             tr.add(kenc(k))
                         else:
-                            tr[kenc(k)] = v
+                            tr[kenc(k)] = venc(v)
                             self.objs[(k, v)] = tr.get_element(kenc(k))  # the KV object made by __setitem__
+                    elif sel == 1 and not tr.in_order:
+                        old = tr.insert_element(e)  # the default of `in_order` (False)
                     else:
                         old = tr.insert_element(e, tr.in_order)
                     ref[k] = v
-                    got = None if old is None else (kdec(old.key()), getattr(old, "_value", 0))
+                    opt_calls = BRANCH.get("branch.optimize_in_order_insertion", 0) - opt_before
+                    if opt_calls and not self.in_order_of[h]:
+                        self.fail("C19/in_order/optimised-although-off", f"op {at} {tok}: optimize_in_order_insertion ran {opt_calls}x on a tree made with in_order=False", at)
+                    if not opt_calls and self.in_order_of[h] and hb >= 1 and exp_old is None:
+                        self.fail("C19/in_order/not-optimised", f"op {at} {tok}: optimize_in_order_insertion did not run on a tree of height {hb} made with in_order=True", at)
+                    got = None if old is None else (kdec(old.key()), vid_of(old))
                     exp = None if exp_old is None else (k, exp_old)
                     if got != exp:
                         self.fail("C19/insert/returned-element", f"op {at} {tok}: returned {got}, reference {exp}", at)
@@ -457,10 +487,26 @@ class Runner:
                             except KeyError:
                                 if old is not None:
                                     self.fail("C19/delete/keyerror", f"op {at} {tok}: KeyError for a present key", at)
+                    elif sel == 2 and not frozen and ref and k == min(ref):
+                        # MutableSet.pop() / MutableMapping.popitem(): `next(iter(self))`, then a deletion while that
+                        # iterator is still suspended
+                        old = tr.get_element(kenc(k))
+                        if self.is_set:
+                            gotk = tr.pop()
+                        else:
+                            gotk, gotv = tr.popitem()
+                            if old is not None and gotv is not old.value():
+                                self.fail("C19/api/popitem-value", f"op {at} {tok}: popitem returned the value {gotv!r}", at)
+                        if kdec(gotk) != k:
+                            self.fail("C19/api/pop-least", f"op {at} {tok}: pop()/popitem() returned key {kdec(gotk)}, the least key is {k}", at)
+                        if tr.cursors:
+                            live = sum(1 for x in self.curs if x[0] == h and x[3])
+                            if len(tr.cursors) > live:
+                                self.fail("C19/iteration/cursor-leaked", f"op {at} {tok}: {len(tr.cursors)} registered cursors, {live} open", at)
                     else:
                         old = tr.delete_key(kenc(k))
                     ref.pop(k, None)
-                    got = None if old is None else (kdec(old.key()), getattr(old, "_value", 0))
+                    got = None if old is None else (kdec(old.key()), vid_of(old))
                     exp = None if exp_old is None else (k, exp_old)
                     if got != exp:
                         self.fail("C19/delete/returned-element", f"op {at} {tok}: returned {got}, reference {exp}", at)
@@ -532,9 +578,9 @@ class Runner:
                         if e is None:
                             raise KeyError(k)
                         tr.discard(kenc(k))
-                        val = getattr(e, "_value", 0)
+                        val = vid_of(e)
                     else:
-                        val = tr.pop(kenc(k))
+                        val = vdec(tr.pop(kenc(k)))
                     if k not in ref or ref[k] != val:
                         self.fail("C19/api/pop-value", f"op {at} {tok}: pop returned {val}, reference {ref.get(k)}", at)
                     ref.pop(k, None)
@@ -576,7 +622,7 @@ class Runner:
                 got = [kdec(x) for x in tr] if self.is_set else [kdec(x) for x in tr.keys()]
                 exp = sorted(ref)
             else:
-                got = [getattr(e, "_value", 0) for e in self.items_of(tr)] if self.is_set else list(tr.values())
+                got = [vid_of(e) for e in self.items_of(tr)] if self.is_set else [vdec(x) for x in tr.values()]
                 exp = [ref[k] for k in sorted(ref)]
             if got != exp:
                 self.fail("C19/api/" + ("keys" if op == "K" else "values"), f"op {at} {tok}: {got} != reference {exp}", at)
@@ -602,7 +648,7 @@ class Runner:
             else:
                 if (kenc(k) in tr) != (e is not None):
                     self.fail("C19/lookup/contains", f"op {at} {tok}: `in` disagrees with get_element", at)
-            got = None if e is None else (kdec(e.key()), getattr(e, "_value", 0))
+            got = None if e is None else (kdec(e.key()), vid_of(e))
             exp = (k, ref[k]) if k in ref else None
             if got != exp:
                 self.fail("C19/lookup/value", f"op {at} {tok}: got {got}, reference {exp}", at)
@@ -620,7 +666,7 @@ class Runner:
                 return "!"
             tr, ref = T[h], self.refs[h]
             items = self.items_of(tr)
-            got = [(kdec(e.key()), getattr(e, "_value", 0)) for e in items]
+            got = [(kdec(e.key()), vid_of(e)) for e in items]
             exp = [(k, ref[k]) for k in sorted(ref)]
             if got != exp:
                 self.fail("C19/iteration/visit_in_order", f"op {at} {tok}: {got} != reference {exp}", at)
@@ -628,7 +674,7 @@ class Runner:
             if it != [k for k, _ in exp]:
                 self.fail("C19/iteration/iter", f"op {at} {tok}: iter {it} != reference keys", at)
             if not self.is_set and sel == 0:
-                if [(kdec(a_), b_) for a_, b_ in tr.items()] != exp:
+                if [(kdec(a_), vdec(b_)) for a_, b_ in tr.items()] != exp:
                     self.fail("C19/iteration/items", f"op {at} {tok}: items() differs from the reference", at)
             return "[" + ",".join(elt_str(e) for e in items) + "]"
         if op == "S" and len(a) == 1:
@@ -660,6 +706,7 @@ class Runner:
             if not T[h]._immutable:
                 self.fail("C19/clone/accepted-mutable", f"op {at} {tok}: clone of a mutable tree was accepted", at)
             T.append(c)
+            self.in_order_of.append(bool(io))
             self.creators[id(c.creator)] = len(T) - 1
             self.refs.append(self.refs[h].copy())
             self.lines.append(tree_line(c))
@@ -675,8 +722,11 @@ class Runner:
             h = a[0]
             if h >= len(T):
                 return "!"
-            cu = T[h].cursor()
-            cu.__enter__()
+            if self.case.get("itercur"):
+                cu = iter(T[h])  # the generator of BTree.__iter__: its cursor registers at the first next()
+            else:
+                cu = T[h].cursor()
+                cu.__enter__()
             self.curs.append([h, cu, RefCursor(), True])
             return str(len(self.curs) - 1)
         if op in ("s", "n", "p", "f", "l", "P", "x"):
@@ -686,8 +736,27 @@ class Runner:
                 return "!"
             h, cu, rc, _ = self.curs[a[0]]
             ref = self.refs[h]
+            if self.case.get("itercur"):
+                if op == "x":
+                    cu.close()
+                    self.curs[a[0]][3] = False
+                    if any(True for x in T[h].cursors) and not any(x[0] == h and x[3] for x in self.curs):
+                        self.fail("C19/iteration/cursor-leaked", f"op {at} {tok}: a closed iterator left its cursor registered", at)
+                    return "ok"
+                if op != "n":
+                    return "!"
+                kk = next(cu, self)
+                e = None if kk is self else T[h].get_element(kk)
+                ek = rc.next(sorted(ref))
+                got = None if kk is self else kdec(kk)
+                if got != ek:
+                    self.fail("C19/iteration/step", f"op {at} {tok}: the iterator yielded {got}, reference order gives {ek}", at)
+                return "-" if e is None else elt_str(e)
             if op == "s":
-                cu.seek(kenc(a[1]), a[2] != 0)
+                if a[2] != 0 and sel == 1:
+                    cu.seek(kenc(a[1]))  # the default of `before` (True)
+                else:
+                    cu.seek(kenc(a[1]), a[2] != 0)
                 rc.seek(a[1], a[2] != 0)
                 return "ok"
             if op == "f":
@@ -708,7 +777,7 @@ class Runner:
             keys = sorted(ref)
             e = cu.next() if op == "n" else cu.prev()
             ek = rc.next(keys) if op == "n" else rc.prev(keys)
-            got = None if e is None else (kdec(e.key()), getattr(e, "_value", 0))
+            got = None if e is None else (kdec(e.key()), vid_of(e))
             exp = None if ek is None else (ek, ref[ek])
             if got != exp:
                 self.fail(f"C19/cursor/{'next' if op == 'n' else 'prev'}", f"op {at} {tok}: cursor returned {got}, reference order gives {exp}", at)
@@ -728,6 +797,7 @@ class Runner:
                 return "err ValueError"
         T0 = self.new_tree(None, self.io)
         self.trees.append(T0)
+        self.in_order_of.append(self.io)
         self.creators[id(T0.creator)] = 0
         self.refs.append({})
         self.lines.append(tree_line(T0))
@@ -1312,10 +1382,98 @@ def gen_cursor_mutation(rng):
             b = rng.below(2)
             ops.append(f"s,{c},{k},{b}")
             rc.seek(k, bool(b))
+            if rng.chance(1, 2):  # parked right after a seek (parking key not read yet)
+                if k in refs[h] and rng.chance(1, 2):
+                    dele(h, k)
+                else:
+                    ins(h, max(0, k + rng.choice([-1, 0, 1])))
         # else: no mutation between two cursor steps
         if rng.chance(1, 10):
             ops.append(rng.choice([f"T,{h}", f"K,{h}", f"L,{h}", f"P,{c}"]))
     return {"kind": "hist", "t": t, "io": io, "set": is_set, "ktype": rng.choice(KTYPES), "ops": ops}
+
+
+def gen_iter_mutation(rng):
+    """`for k in tree:` interleaved with mutations of the same tree ("may be mutated while iterating"): the `c` op opens
+    `iter(tree)`, `n` is `next(it)`, `x` closes it; between two steps the tree is mutated around the key just yielded
+    (delete it, insert right before / after it, delete the next one, touch the falsy key)"""
+    t = rng.choice([3, 3, 4, 5])
+    io = rng.below(2)
+    is_set = rng.chance(1, 2)
+    n = rng.choice([3, 6, 9, 14, 25, 40])
+    step = rng.choice([1, 2, 3])
+    ops = []
+    vid = [0]
+    ref = set()
+
+    def ins(k):
+        vid[0] += 1
+        ops.append(f"I,0,{k},{0 if is_set else vid[0]}")
+        ref.add(k)
+
+    def dele(k):
+        m = rng.below(4)
+        ops.append(f"R,0,{k}" if m == 0 else (f"O,0,{k}" if (m == 1 and not is_set) else f"D,0,{k}"))
+        ref.discard(k)
+
+    for k in key_order(rng, [i * step for i in range(n)], rng.choice(["asc", "desc", "rand"])):
+        ins(k)
+    hi = n * step + 2
+    its = []  # (cursor id, RefCursor)
+    ncur = 0
+    for _ in range(rng.range(10, 70)):
+        if not its or (len(its) < 2 and rng.chance(1, 8)):
+            ops.append("c,0")
+            its.append((ncur, RefCursor()))
+            ncur += 1
+            if rng.chance(1, 3):
+                ins(rng.below(hi)) if rng.chance(1, 2) else (ref and dele(min(ref)))  # before the generator started
+            continue
+        c, rc = rng.choice(its)
+        keys = sorted(ref)
+        got = rc.next(keys)
+        ops.append(f"n,{c}")
+        if got is None:
+            ops.append(f"x,{c}")
+            its = [x for x in its if x[0] != c]
+            continue
+        m = rng.below(12)
+        if m < 4:
+            dele(got)
+        elif m < 6:
+            ins(max(0, got + rng.choice([-2, -1, 1, 1, 2])))
+        elif m < 7:
+            later = [k for k in keys if k > got]
+            if later:
+                dele(later[0])
+        elif m < 8:
+            ins(rng.below(hi))
+        elif m < 9:
+            ins(0) if 0 not in ref else dele(0)
+        elif m < 10 and keys:
+            dele(min(ref))  # the mixins' pop()/popitem() route
+        elif m < 11 and rng.chance(1, 3):
+            ops.append(f"x,{c}")  # abandon the loop (`break`)
+            its = [x for x in its if x[0] != c]
+        if rng.chance(1, 10):
+            ops.append(rng.choice(["T,0", "K,0", "L,0"]))
+    return {"kind": "hist", "t": t, "io": io, "set": is_set, "ktype": rng.choice(KTYPES), "itercur": True, "ops": ops}
+
+
+def gen_defaults(rng, is_set):
+    """trees made with the constructors' default arguments (t = DEFAULT_T = 127, in_order = False): enough keys for the
+    first root split at 2t-1 = 253 elements, then deletions back below it"""
+    io = 1 if rng.chance(1, 3) else 0
+    n = rng.range(262, 300)
+    ops = []
+    keys = list(range(0, 2 * n, 2))
+    for i, k in enumerate(key_order(rng, keys, rng.choice(["asc", "nearasc", "rand", "desc"]))):
+        ops.append(f"I,0,{k},{0 if is_set else i + 1}")
+    ops += ["L,0", "M,0", f"G,0,{rng.choice(keys)}", f"G,0,{rng.choice(keys) + 1}"]
+    for k in rng.shuffle(keys)[: rng.range(20, 70)]:
+        ops.append(f"D,0,{k}")
+    ops += ["K,0", "F,0", "C,0,0", f"I,1,{2 * n + 1},{0 if is_set else 900000}", f"D,1,{keys[0]}", "L,0", "L,1"]
+    return {"kind": "hist", "t": 127, "io": io, "set": is_set, "defaults": True, "ops": ops}
 
 
 def gen_malformed(rng):
@@ -1377,6 +1535,17 @@ def generate(ctx: Ctx, scale: float, rng):
         eval_case(ctx, case)
         ctx.count("cursor-reuse")
         ctx.case(("curreuse", case["t"], case["ktype"], tuple(case["ops"])), nontrivial=True, sample=_sample(case))
+    for i in range(max(1, int(60 * scale))):
+        case = gen_iter_mutation(rng)
+        r = eval_case(ctx, case)
+        ctx.count("iter-mutation")
+        ctx.case(("itermut", case["t"], case["io"], case["set"], case["ktype"], tuple(case["ops"])),
+                 nontrivial=bool(r and r.mutations), sample=_sample(case))
+    for i in range(max(2, int(2 * scale))):
+        case = gen_defaults(rng, bool(i % 2))
+        r = eval_case(ctx, case)
+        ctx.count("default-ctor")
+        ctx.case(("defaults", case["io"], case["set"], tuple(case["ops"])), nontrivial=True, sample=_sample(case))
     for i in range(max(1, int(40 * scale))):
         case = gen_absent_sweeps(rng)
         r = eval_case(ctx, case)
